@@ -295,6 +295,10 @@ func newConn(conn net.Conn, isServer bool, readBufferSize, writeBufferSize int, 
 
 	if writeBufferSize <= 0 {
 		writeBufferSize = defaultWriteBufferSize
+	} else if writeBufferSize <= maxControlFramePayloadSize {
+		// must be large enough to buffer a complete control frame: control
+		// frames cannot be fragmented.
+		writeBufferSize = maxControlFramePayloadSize + 1
 	}
 	writeBufferSize += maxFrameHeaderSize
 
